@@ -151,7 +151,7 @@ func (c *Conn) sendGlued(last *Pkt, raw []byte, glued []resp, eofAfter bool) {
 		if c.isSilent() {
 			return
 		}
-		if !c.deliver(raw) {
+		if !c.alive() {
 			s.log(Rec{Kind: "lostb2c", Conn: c.k, N: base, P: last})
 			return
 		}
@@ -160,6 +160,7 @@ func (c *Conn) sendGlued(last *Pkt, raw []byte, glued []resp, eofAfter bool) {
 		}
 		s.log(Rec{Kind: "rx", Conn: c.k, N: base + len(glued), P: last})
 		s.probe("glued-delivery")
+		c.deliver(raw)
 		if eofAfter {
 			s.after(1000, "eof-after", func() { c.cut(false, "broker-close") })
 		}
